@@ -26,7 +26,7 @@ GROUPS.append(G("sym_CodePPSyms", "harness/C10/h_asmallg.c", "h_CodePPSyms", enf
                 bounded="argument list of three names (first and third optionally section-qualified), empty FORWARD/PUBLIC/GLOBAL lists"))
 TRUSTED_BASE = ["message/file-name stubs", "FreeRelocs stub (no relocations)"]
 ASSUMPTIONS = ["integer or float values (string constants compared by as_nonz_dynstr_cmp are not explored)", "JmpErrors <= ErrorCount (established by WrXErrorPos, see C02)"]
-NOT_COVERED = ["balanced tree (trees.c)", "GetSymSection qualifier splitting ([..] parsing)", "CodeSECTION / ENDSECTION (section stack construction)", "temporary symbols ($$, +/-, composed .name)", "case folding (-U)"]
+NOT_COVERED = ["balanced tree (trees.c)", "GetSymSection qualifier splitting ([..] parsing)", "CodeSECTION / ENDSECTION (section stack construction)", "named temporary symbols ($$: ChkTmp1, SHA1 suffix)", "case folding (-U)"]
 EXPLANATION = ("Kernel only: SymbolAdder decides constant vs variable vs redefinition and when another pass is requested; the section walk and "
                "temporary-symbol counters follow; the run-level statement (every reference resolves as the manual prescribes) is an induction "
                "over these per-call facts and the unverified tree/section code.")
@@ -36,7 +36,7 @@ MANIFEST = dict(
     text="Contracts on the kernel of symbol handling in asmpars.c: SymbolAdder (a constant defined twice is an error and keeps its value; constant "
          "and variable cannot change kind; a variable is replaced; usage carried), FindNode (innermost enclosing section first, then outward to "
          "global, wrong-kind entries do not hide outer ones, FORWARD names stay local in early passes) and LookupSymbol (value, used flag, "
-         "forward/questionable flags). Also PushSymbol/PopSymbol (PUSHV/POPV: last in, first out, empty stack is an error), IdentifySection (name[], PARENTn, section names), CodePPSyms (PUBLIC/GLOBAL/FORWARD lists: each argument its own destination section) and ExpandStrSymbol (bounded). The symbol tree itself is an oracle; qualifiers, PUBLIC/GLOBAL redirection, temporary symbols and "
-         "PUSHV/POPV are named unverified.",
+         "forward/questionable flags). Also PushSymbol/PopSymbol (PUSHV/POPV: last in, first out, empty stack is an error), IdentifySection (name[], PARENTn, section names), CodePPSyms (PUBLIC/GLOBAL/FORWARD lists: each argument its own destination section) ExpandStrSymbol (bounded), the nameless temporary symbols (ChkTmp2/AddTmpSymLog: -, --, --- name the three last minus symbols, +, ++, +++ the next plus symbols, / counts as both) and the string helpers that build composed names (strmaxprep/strmaxprep2, bounded). The symbol tree itself is an oracle; "
+         "[..] splitting, named ($$) temporary symbols and case folding are named unverified.",
     note="Bounded: section nesting depth <= 2, one fixed plain name. Trusted: SearchTree oracle, message stubs, no relocations.",
 )
